@@ -1,8 +1,8 @@
 SPECIFICATION Spec
 CONSTANTS
-  MaxSteps = 3
+  MaxSteps = 4
   DevAvg = FALSE
   DevArr = FALSE
   DevStale = FALSE
-INVARIANTS LengthInv StepOK WitnessPrint
+INVARIANTS LengthInv StepOK WitnessPrint ActionPrint
 CHECK_DEADLOCK FALSE
